@@ -852,6 +852,19 @@ fn blob_history(cx: &mut Ctx, strategy: u64, preset: u64, capbytes: usize, share
                        mops.push(format!("(0, {}, {})", a, b)); mobs.push(coq_n_list(vec![1u128, id as u128]));
                        if shadow.contains_key(&id) { fails.push(format!("put returned id {} which is still in use", id)); }
                        shadow.insert(id, data); ids.push(id); }
+                1 | 2 if a >= 1000 => {
+                    // refused requests inside the history: an id no put ever returned.  get / size / contains answer "not there", remove is
+                    // an error, and the store is as it was (len() right below, every later get, the final read-back of all blobs); the
+                    // Coq replay does not see these calls, so a trace of them in the store or the cache is a disagreement there too
+                    let id = 0x7000_0000u32 + (a as u32 & 0xFFFF) + ids.iter().copied().max().unwrap_or(0);
+                    if shadow.contains_key(&id) { continue; }
+                    cx.sum.dist("blob_refused_unknown_id");
+                    if c == 1 {
+                        if let Ok(g) = store.get(id) { fails.push(format!("get({}) of an id that was never handed out returned {} bytes", id, g.len())); }
+                        if let Ok(Some(n)) = store.size(id) { fails.push(format!("size({}) of an id that was never handed out = {}", id, n)); }
+                        if store.contains(id) { fails.push(format!("contains({}) of an id that was never handed out", id)); }
+                    } else if store.remove(id).is_ok() { fails.push(format!("remove({}) of an id that was never handed out succeeded", id)); }
+                }
                 1 | 2 => {
                     if ids.is_empty() { continue; }
                     let id = ids[(a as usize) % ids.len()];
@@ -926,8 +939,8 @@ fn gen_bops(r: &mut Rng, n: usize, shared: bool) -> Vec<BOp> {
     for _ in 0..n {
         let c = r.below(100);
         if c < 35 { let len = *r.pick(&[0u64, 1, 7, 100, ps - 1, ps, ps + 1, 2 * ps + 5, 300]); ops.push((0, len, r.below(250))); }
-        else if c < 65 { ops.push((1, r.below(16), 0)); }
-        else if c < 75 { ops.push((2, r.below(16), 0)); }
+        else if c < 65 { ops.push((1, if r.chance(1, 12) { 1000 + r.below(5) } else { r.below(16) }, 0)); }
+        else if c < 75 { ops.push((2, if r.chance(1, 8) { 1000 + r.below(5) } else { r.below(16) }, 0)); }
         else if c < 79 { ops.push((3, 0, 0)); }
         else if c < 84 { ops.push((4, r.below(3 * ps), r.below(2 * ps))); }
         else if c < 87 { ops.push((5, 0, 0)); }
@@ -1180,6 +1193,14 @@ pub fn run(args: &Args) {
         pc_history(&mut cx, i % 4 == 3, rng.below(4), 64 * ps as usize, &[(rng.below(200), flen)], &ops, i < 12);
     }
     // cached blob store
+    // refused requests inside histories (deterministic): get / size / contains / remove of ids no put ever returned, between puts, gets,
+    // removes (also the second remove of the same blob), a flush and a strategy change, on every write strategy, own and shared cache
+    for strategy in 0..3u64 { for shared in [false, true] { for &capbytes in &[ps as usize, 16 * ps as usize] {
+        let ops: Vec<BOp> = vec![(0, 100, 1), (0, ps + 1, 2), (1, 1000, 0), (2, 1001, 0), (1, 0, 0), (2, 0, 0), (2, 0, 0), (2, 1000, 0), (1, 1002, 0), (0, 7, 3), (3, 0, 0),
+            (1, 1000, 0), (7, strategy + 1, 0), (2, 1003, 0), (1, 1, 0), (1, 2, 0), (5, 0, 0), (1, 1004, 0), (6, 0, 0), (0, 2 * ps + 5, 4), (2, 1004, 0), (1, 3, 0)];
+        blob_history(&mut cx, strategy, strategy, capbytes, shared, &ops, true);
+        cx.sum.dist("refused_family_blob");
+    } } }
     let n_blob = if th { 3000 } else { 300 };
     for _ in 0..n_blob {
         let shared = rng.chance(1, 3);
